@@ -31,7 +31,16 @@ pub fn nonterminating(rng: &mut Prng) -> (Module, &'static str) {
     let mut m = Module::default();
     let mut main = vec![set("_", nil())];
     let name: &'static str;
-    match rng.below(11) {
+    match rng.below(13) {
+        11 | 12 => {
+            name = "loop:host-retries-a-failed-callback";
+            // the host calls the callback again after it failed (here: by running out of budget), inside the same host call
+            let inner = rng.range(30, 400);
+            m.functions.push(("work".into(), func(&["d"], vec![set("_", nil()), repeat(int(inner), None, comp(vec![set("_", read("d"))])), un("ret", read("d"))])));
+            let n = rng.range(3, 40);
+            main.push(repeat(int(n), Some("i"), comp(vec![set("_", native("retry1", vec![CardBody::Function("work".into()).into(), read("i")]))])));
+            main.push(bin("while", int(1), comp(vec![set("_", native("retry1", vec![CardBody::Function("work".into()).into(), int(1)]))])));
+        }
         9 | 10 => {
             name = "loop:callback-failure-swallowed-by-host";
             // the host function survives a callback that fails (here: by running out of budget) and the script goes on:
@@ -198,6 +207,8 @@ impl Engine for BudgetEngine {
                 b.extend(case.extra_budgets.iter().copied());
                 if terminates {
                     b.extend([need.saturating_sub(1).max(1), need.max(1), need + 1, need + 2, 2 * need + 1]);
+                    // "the same for every sufficient budget", however large
+                    b.extend([u32::MAX as u64, (1u64 << 63) - 1, 1u64 << 63, (1u64 << 63) + 1, u64::MAX - 1, u64::MAX]);
                     obs.inc("budgets_around_need");
                 }
                 b
